@@ -4,6 +4,7 @@ import (
 	"encoding/json"
 	"flag"
 	"fmt"
+	"go/token"
 	"go/types"
 	"os"
 	"path/filepath"
@@ -146,7 +147,8 @@ func loadAll(pkgDirs []string) (*loaded, error) {
 	prog, _ := ssautil.AllPackages(pkgs, ssa.NaiveForm|ssa.GlobalDebug|ssa.InstantiateGenerics)
 	prog.Build()
 	eng := &Engine{prog: prog, layouts: map[string][]Comp{}, heapSorts: map[string]Sort{}, heapComps: map[string]Comp{}, typeIDs: map[string]int{},
-		contracts: map[string]*FuncContract{}, specs: map[string]*SpecFunc{}, fnByKey: map[string]*ssa.Function{}, repoPrefix: modPath, pkgInvs: map[string][]Clause{}, implCache: map[string]map[string]bool{}, disabledFrames: map[string]bool{}, funcIDs: map[*ssa.Function]int{}, funcByID: map[int]*ssa.Function{}, ghostFields: map[string][]GhostField{}}
+		contracts: map[string]*FuncContract{}, specs: map[string]*SpecFunc{}, fnByKey: map[string]*ssa.Function{}, repoPrefix: modPath, pkgInvs: map[string][]Clause{}, implCache: map[string]map[string]bool{}, disabledFrames: map[string]bool{}, funcIDs: map[*ssa.Function]int{}, funcByID: map[int]*ssa.Function{}, ghostFields: map[string][]GhostField{},
+		guards: map[string]map[string]*GuardDecl{}, guardDecls: map[string][]*GuardDecl{}}
 	for _, cf := range ld.files {
 		for _, sf := range cf.Specs {
 			if _, dup := eng.specs[sf.Name]; dup {
@@ -164,6 +166,19 @@ func loadAll(pkgDirs []string) (*loaded, error) {
 		}
 		if pp, ok := ld.pkgOf[cf]; ok {
 			eng.pkgInvs[pp] = append(eng.pkgInvs[pp], cf.Invariants...)
+			for i := range cf.Guards {
+				gd := &cf.Guards[i]
+				eng.guardDecls[pp] = append(eng.guardDecls[pp], gd)
+				if gd.Once == "" {
+					k := pp + "." + gd.Type
+					if eng.guards[k] == nil {
+						eng.guards[k] = map[string]*GuardDecl{}
+					}
+					eng.guards[k][gd.Field] = gd
+				}
+			}
+		} else if len(cf.Guards) > 0 {
+			return nil, fmt.Errorf("%s: guarded/immutable declarations belong in a package contract file", cf.Path)
 		}
 		for _, fc := range cf.Funcs {
 			key := fc.Key
@@ -174,6 +189,38 @@ func loadAll(pkgDirs []string) (*loaded, error) {
 				return nil, fmt.Errorf("%s:%d: duplicate contract for %s", fc.File, fc.Line, fc.Key)
 			}
 			eng.contracts[key] = fc
+		}
+	}
+	// "implements T": the function is verified against (and callable through) the contract of the function type T
+	for _, cf := range ld.files {
+		pp, ok := ld.pkgOf[cf]
+		if !ok {
+			continue
+		}
+		for _, fc := range cf.Funcs {
+			if fc.Implements == "" {
+				continue
+			}
+			tc := eng.contracts[pp+"::("+fc.Implements+").call"]
+			if tc == nil {
+				return nil, fmt.Errorf("%s:%d: implements %s: no contract for (%s).call in this package", fc.File, fc.Line, fc.Implements, fc.Implements)
+			}
+			if len(fc.Requires) > 0 {
+				return nil, fmt.Errorf("%s:%d: a function that implements %s takes its preconditions from that contract", fc.File, fc.Line, fc.Implements)
+			}
+			if len(fc.Params) != len(tc.Params) {
+				return nil, fmt.Errorf("%s:%d: implements %s: name the parameters in the header as the type contract does", fc.File, fc.Line, fc.Implements)
+			}
+			for i := range fc.Params {
+				if fc.Params[i].Name != tc.Params[i].Name {
+					return nil, fmt.Errorf("%s:%d: implements %s: parameter %d must be called %s", fc.File, fc.Line, fc.Implements, i, tc.Params[i].Name)
+				}
+			}
+			if tc.HasAsg {
+				return nil, fmt.Errorf("%s:%d: implements %s: a type contract with an assigns clause is not supported", fc.File, fc.Line, fc.Implements)
+			}
+			fc.Requires = append([]Clause(nil), tc.Requires...)
+			fc.Ensures = append(append([]Clause(nil), fc.Ensures...), tc.Ensures...)
 		}
 	}
 	eng.files = ld.files
@@ -402,6 +449,7 @@ func cmdCheck(args []string) int {
 			reports = append(reports, ld.eng.verifyLemma(ax))
 		}
 	}
+	reports = append(reports, ld.lockCoverage(prop, reports)...)
 	genMs := time.Since(t0).Milliseconds() - loadMs
 	var all []*Obligation
 	for _, r := range reports {
@@ -503,7 +551,7 @@ func cmdCheck(args []string) int {
 		}
 	}
 	for _, o := range failed {
-		if r := repOf[o]; r != nil && os.Getenv("GVC_NO_REPLAY") == "" {
+		if r := repOf[o]; r != nil && !o.Static && os.Getenv("GVC_NO_REPLAY") == "" {
 			tryReplay(ld, r, o)
 		}
 		isKnown := false
@@ -821,4 +869,211 @@ func cmdSweep(args []string) int {
 		}
 	}
 	return 0
+}
+
+// lockCoverage: the lock-discipline obligations are generated inside the functions under contract; this scan makes the
+// argument complete for a package: every function (or function literal) of the package that touches a guarded field, or
+// writes an immutable one, must be one of the functions verified in this run (directly or inlined into one). Package
+// variables declared "onceguarded v by once" may only be written inside a function literal handed to once.Do, and only
+// be read in a function after it has called once.Do. Both are decided on the program text (SSA), not by a solver.
+func (ld *loaded) lockCoverage(prop string, reports []*FuncReport) []*FuncReport {
+	eng := ld.eng
+	covered := map[*ssa.Function]bool{}
+	inlined := map[string]bool{}
+	for _, r := range reports {
+		if r.Fn != nil && r.Unsupported == "" {
+			covered[r.Fn] = true
+		}
+		for k := range r.Inlined {
+			inlined[k] = true
+		}
+	}
+	var out []*FuncReport
+	var pkgs []string
+	for pp := range eng.guardDecls {
+		pkgs = append(pkgs, pp)
+	}
+	sort.Strings(pkgs)
+	all := ssautil.AllFunctions(eng.prog)
+	for _, pp := range pkgs {
+		var decls []*GuardDecl
+		for _, gd := range eng.guardDecls[pp] {
+			if hasProp(gd.Props, prop) {
+				decls = append(decls, gd)
+			}
+		}
+		if len(decls) == 0 {
+			continue
+		}
+		rep := &FuncReport{Name: "lock-discipline-coverage:" + pp, Key: "lock-discipline-coverage"}
+		mk := func(name, pos, comment string, ok bool) {
+			o := &Obligation{Name: name, Func: rep.Name, Kind: "guarded", Label: "coverage", Pos: pos, Comment: comment, Props: []string{prop}, Static: true,
+				Result: &SolveResult{Status: "unsat", Solver: "ssa-scan"}}
+			if !ok {
+				o.Result.Status = "refuted-by-scan"
+			}
+			rep.Obls = append(rep.Obls, o)
+		}
+		var fns []*ssa.Function
+		for fn := range all {
+			root := fn
+			for root.Parent() != nil {
+				root = root.Parent()
+			}
+			if root.Pkg == nil || root.Pkg.Pkg.Path() != pp || len(fn.Blocks) == 0 || fn.Synthetic != "" {
+				continue
+			}
+			fns = append(fns, fn)
+		}
+		sort.Slice(fns, func(i, j int) bool { return fns[i].RelString(nil) < fns[j].RelString(nil) })
+		onceVar := map[string]*GuardDecl{}
+		for _, gd := range decls {
+			if gd.Once != "" {
+				onceVar[gd.Field] = gd
+			}
+		}
+		for _, fn := range fns {
+			touches := map[string]token.Pos{}
+			// functions literals handed to <once>.Do, and the positions of <once>.Do calls
+			for _, b := range fn.Blocks {
+				for _, in := range b.Instrs {
+					if fa, ok := in.(*ssa.FieldAddr); ok {
+						if pt, ok := fa.X.Type().Underlying().(*types.Pointer); ok {
+							if nt, ok := pt.Elem().(*types.Named); ok && nt.Obj().Pkg() != nil && nt.Obj().Pkg().Path() == pp {
+								if gm := eng.guards[pp+"."+nt.Obj().Name()]; gm != nil {
+									fname := nt.Underlying().(*types.Struct).Field(fa.Field).Name()
+									if gd := gm[fname]; gd != nil && hasProp(gd.Props, prop) && (gd.Mutex != "" || guardedWrite(fa)) {
+										if _, seen := touches[nt.Obj().Name()+"."+fname]; !seen {
+											touches[nt.Obj().Name()+"."+fname] = fa.Pos()
+										}
+									}
+								}
+							}
+						}
+					}
+				}
+			}
+			if len(touches) > 0 {
+				ok := covered[fn] || inlined[fn.RelString(nil)]
+				var names []string
+				for k := range touches {
+					names = append(names, k)
+				}
+				sort.Strings(names)
+				p := eng.prog.Fset.Position(fn.Pos())
+				mk(fmt.Sprintf("%s#guarded#function-touching-%s-is-under-contract", fn.RelString(nil), strings.Join(names, "+")),
+					fmt.Sprintf("%s:%d", strings.TrimPrefix(p.Filename, repoDir+"/"), p.Line),
+					"every function that touches a guarded field is verified (its accesses carry lock obligations)", ok)
+			}
+			if len(onceVar) > 0 {
+				ld.onceScan(fn, pp, onceVar, mk)
+			}
+		}
+		out = append(out, rep)
+	}
+	return out
+}
+
+// onceScan: accesses of once-guarded package variables in one function.
+func (ld *loaded) onceScan(fn *ssa.Function, pp string, onceVar map[string]*GuardDecl, mk func(name, pos, comment string, ok bool)) {
+	eng := ld.eng
+	isOnceDo := func(in ssa.Instruction, once string) (lit *ssa.Function, ok bool) {
+		c, isCall := in.(ssa.CallInstruction)
+		if !isCall {
+			return nil, false
+		}
+		cc := c.Common()
+		callee := cc.StaticCallee()
+		if callee == nil || callee.RelString(nil) != "(*sync.Once).Do" || len(cc.Args) != 2 {
+			return nil, false
+		}
+		g, isG := cc.Args[0].(*ssa.Global)
+		if !isG || g.Pkg.Pkg.Path() != pp || g.Name() != once {
+			return nil, false
+		}
+		switch f := cc.Args[1].(type) {
+		case *ssa.Function:
+			return f, true
+		case *ssa.MakeClosure:
+			return f.Fn.(*ssa.Function), true
+		}
+		return nil, true
+	}
+	// is fn itself a literal handed to once.Do of its parent?
+	insideOnce := map[string]bool{}
+	if par := fn.Parent(); par != nil {
+		for _, b := range par.Blocks {
+			for _, in := range b.Instrs {
+				for _, gd := range onceVar {
+					if lit, ok := isOnceDo(in, gd.Once); ok && lit == fn {
+						insideOnce[gd.Once] = true
+					}
+				}
+			}
+		}
+	}
+	dom := func(a, b ssa.Instruction) bool { // a executes before b on every path
+		if a.Block() == b.Block() {
+			for _, in := range a.Block().Instrs {
+				if in == a {
+					return true
+				}
+				if in == b {
+					return false
+				}
+			}
+		}
+		return a.Block().Dominates(b.Block())
+	}
+	for _, b := range fn.Blocks {
+		for _, in := range b.Instrs {
+			var g *ssa.Global
+			write := false
+			switch u := in.(type) {
+			case *ssa.Store:
+				g, _ = u.Addr.(*ssa.Global)
+				write = true
+			case *ssa.UnOp:
+				if u.Op == token.MUL {
+					g, _ = u.X.(*ssa.Global)
+				}
+			}
+			if g == nil || g.Pkg.Pkg.Path() != pp {
+				// the address of the variable escaping in any other way counts as a write
+				for _, op := range in.Operands(nil) {
+					if gg, ok := (*op).(*ssa.Global); ok && gg.Pkg.Pkg.Path() == pp && onceVar[gg.Name()] != nil {
+						if _, isStore := in.(*ssa.Store); !isStore {
+							if u, isLoad := in.(*ssa.UnOp); !(isLoad && u.Op == token.MUL) {
+								g, write = gg, true
+							}
+						}
+					}
+				}
+				if g == nil || g.Pkg.Pkg.Path() != pp {
+					continue
+				}
+			}
+			gd := onceVar[g.Name()]
+			if gd == nil || fn.Name() == "init" {
+				continue
+			}
+			ok := insideOnce[gd.Once]
+			if !ok && !write {
+				for _, b2 := range fn.Blocks {
+					for _, in2 := range b2.Instrs {
+						if _, isDo := isOnceDo(in2, gd.Once); isDo && dom(in2, in) {
+							ok = true
+						}
+					}
+				}
+			}
+			p := eng.prog.Fset.Position(in.Pos())
+			kind := "read-after-" + gd.Once + ".Do"
+			if write {
+				kind = "written-only-inside-" + gd.Once + ".Do"
+			}
+			mk(fmt.Sprintf("%s#guarded#%s-%s", fn.RelString(nil), g.Name(), kind), fmt.Sprintf("%s:%d", strings.TrimPrefix(p.Filename, repoDir+"/"), p.Line),
+				"package variable "+g.Name()+" is initialised once: written only in the function handed to "+gd.Once+".Do, read only after "+gd.Once+".Do returned", ok)
+		}
+	}
 }
